@@ -57,6 +57,7 @@ FALSE_ALARMS = [
     ('C12', 'oracle', 'totals that cancel exactly on one side leave a residue of the last digits (1e-27) on the other when a conversion divides: for `convert` / `value` such a position counts as absent; `units` / `cost` stay exact'),
     ('C14', 'oracle', 'PRINT with a filter can print a sale without the purchase it reduces: the loader then refuses to book the reloaded text, which says nothing about PRINT; the printed text is now compared as written (parser level) always, and as loaded only when it books'),
     ('C17', 'oracle', 'the conservation oracle identified columns by name; with two columns of one name (legal) it misreported: skipped there, the model comparison covers those tables'),
+    ('C05 / C19', 'model', 'found by new fixed cases on the unchanged tree before they were committed: `types.Any` does not match the pseudo-type of `*` (a `typing.NewType` object is no `type`), so `max(*)`, `str(*)` are compilation errors - the model accepted them; Python\'s `repr` doubles backslashes in the echo of `.set` - the model did not.  Both models corrected'),
     ('run_check', 'infrastructure', 'theorem names containing `\'` broke the audit regex; a `signatures` list was added for findings with several signatures; stale replays are cleared at the start of a run; the driver must flush after every line'),
 ]
 
